@@ -71,10 +71,20 @@ fn parse_outcome(src: String) -> Result<&'static str, String> {
             return if errs.is_empty() { Err("lexer failed without an error".into()) } else { Ok("err") };
         }
     };
+    // the parser proper, then the desugaring pass of `SimpleParser::parse` (crates/erg_parser/desugar.rs)
     match Parser::new(ts).parse() {
-        Ok(_) => Ok("ok"),
+        Ok(art) => {
+            let _ = erg_parser::desugar::Desugarer::new().desugar(art.ast);
+            Ok("ok")
+        }
         Err(iart) => {
-            if iart.errors.is_empty() { Err("parser failed without an error".into()) } else { Ok("err") }
+            if iart.errors.is_empty() {
+                return Err("parser failed without an error".into());
+            }
+            if let Some(m) = iart.ast {
+                let _ = erg_parser::desugar::Desugarer::new().desugar(m);
+            }
+            Ok("err")
         }
     }
 }
@@ -132,7 +142,7 @@ const POOL: &[&str] = &[
 
 fn seeds(repo: &str) -> Vec<String> {
     let mut v = vec![];
-    for dir in ["crates/erg_parser/tests", "examples", "tests/should_ok"] {
+    for dir in ["crates/erg_parser/tests", "examples", "tests/should_ok", "tests/should_err"] {
         if let Ok(rd) = std::fs::read_dir(format!("{}/{}", repo, dir)) {
             let mut names: Vec<_> = rd.filter_map(|e| e.ok()).map(|e| e.path()).filter(|p| p.extension().map(|x| x == "er").unwrap_or(false)).collect();
             names.sort();
@@ -185,6 +195,107 @@ fn mutate(rng: &mut Rng, s: &str) -> String {
     }
 }
 
+
+// ---------------------------------------------------------------------------- structured stream: types, signatures, patterns
+
+fn pick<'a>(rng: &mut Rng, xs: &[&'a str]) -> &'a str {
+    xs[rng.below(xs.len() as u64) as usize]
+}
+
+const BASE_TYPES: &[&str] = &[
+    "Int", "Nat", "Str", "Bool", "T", "_", "Obj", "{1, 2}", "1..10", "[Int; 3]", "{Str: Int}", "(Int, Str)", "Int or Str",
+    "Int and Nat", "not Int", "List(Int)", "List!(Int, 2)", "{x = Int}", "{I: Int | I >= 0}", "Type", "?T", "Self", "C.T", "'a'",
+];
+const NAMES: &[&str] = &["a", "b", "x", "y", "n", "self", "T", "_"];
+const PATTERNS: &[&str] = &["[a, b]", "[a, *b]", "(a, b)", "{x; y}", "0", "1", "\"s\"", "True", "None", "ref x", "ref! x", "_", "()", "[]", "*", "**"];
+
+fn ty(rng: &mut Rng, d: u32) -> String {
+    if d == 0 || rng.chance(1, 2) {
+        return pick(rng, BASE_TYPES).to_string();
+    }
+    let arrow = if rng.chance(3, 4) { "->" } else { "=>" };
+    let ret = ty(rng, d - 1);
+    if rng.chance(1, 4) {
+        // a single parameter without parentheses
+        format!("{} {} {}", ty_param(rng, d - 1), arrow, ret)
+    } else {
+        let n = rng.below(4);
+        let ps: Vec<String> = (0..n).map(|_| ty_param(rng, d - 1)).collect();
+        format!("({}) {} {}", ps.join(", "), arrow, ret)
+    }
+}
+
+/// a parameter of a function TYPE (lambda_to_subr_type_spec): types, names, discards, `*`/`**`, defaults, patterns
+fn ty_param(rng: &mut Rng, d: u32) -> String {
+    let name = pick(rng, NAMES);
+    match rng.below(14) {
+        0 | 1 | 2 => ty(rng, d),
+        3 => "_".to_string(),
+        4 => format!("_: {}", ty(rng, d)),
+        5 => format!("{}: {}", name, ty(rng, d)),
+        6 => name.to_string(),
+        7 => format!("*{}", name),
+        8 => format!("*{}: {}", name, ty(rng, d)),
+        9 => format!("**{}", name),
+        10 => format!("**{}: {}", name, ty(rng, d)),
+        11 => format!("{} := {}", name, ty(rng, d)),
+        12 => format!("{}: {} := {}", name, ty(rng, d), ty(rng, d)),
+        _ => pick(rng, PATTERNS).to_string(),
+    }
+}
+
+/// a parameter of a DEFINITION or lambda
+fn def_param(rng: &mut Rng) -> String {
+    let name = pick(rng, NAMES);
+    match rng.below(12) {
+        0 | 1 => name.to_string(),
+        2 | 3 => format!("{}: {}", name, ty(rng, 1)),
+        4 => format!("*{}", name),
+        5 => format!("**{}", name),
+        6 => format!("{} := 1", name),
+        7 => format!("{}: {} := 1", name, ty(rng, 1)),
+        8 => format!("*{}: {}", name, ty(rng, 1)),
+        _ => pick(rng, PATTERNS).to_string(),
+    }
+}
+
+fn def_params(rng: &mut Rng) -> String {
+    let n = rng.below(4);
+    let ps: Vec<String> = (0..n).map(|_| def_param(rng)).collect();
+    ps.join(", ")
+}
+
+fn structured(rng: &mut Rng) -> String {
+    let mut out = String::new();
+    let stmts = rng.below(3) + 1;
+    for _ in 0..stmts {
+        let s = match rng.below(12) {
+            0 | 1 => format!("x: {} = f", ty(rng, 2)),
+            2 => format!("x: {}", ty(rng, 2)),
+            3 => format!("f({}): {} = 1", def_params(rng), ty(rng, 2)),
+            4 => format!("f({}) = 1", def_params(rng)),
+            5 => format!("f {} = 1", def_params(rng)),
+            6 => format!("f|T <: {}| x: T = x", ty(rng, 1)),
+            7 => format!("g = ({}) -> 1", def_params(rng)),
+            8 => {
+                // multi-clause (pattern-matching) definition: desugared into one `match`
+                let n = rng.below(3) + 2;
+                let mut v = vec![];
+                for _ in 0..n {
+                    if rng.chance(1, 3) { v.push(format!("f({}) = 1", def_params(rng))); } else { v.push(format!("f {} = 1", def_params(rng))); }
+                }
+                v.join("\n")
+            }
+            9 => format!("for! xs, ({}) =>\n    print! 1", def_param(rng)),
+            10 => format!("y = match x:\n    {} -> 1\n    _ -> 2", def_param(rng)),
+            _ => format!(".f: {}", ty(rng, 2)),
+        };
+        out.push_str(&s);
+        out.push('\n');
+    }
+    out
+}
+
 fn main() {
     let a = parse_args();
     match a.mode.as_str() {
@@ -201,7 +312,9 @@ fn main() {
                 vec![1, 2, 3, 5, 10, 20, 40, 100, 101, 120, 150, 200, 201, 250, 300, 500, 1000]
             };
             let mut id = 0;
-            for k in KINDS {
+            // `texts-only`: skip the ladders (used when searching the totality stream over many seeds)
+            let kinds: &[&str] = if a.rest.iter().any(|x| x == "texts-only") { &[] } else { KINDS };
+            for k in kinds {
                 for d in &depths {
                     run_ladder(&format!("l{}", id), k, *d);
                     id += 1;
@@ -215,7 +328,12 @@ fn main() {
             exec_new_thread(
                 move || {
                     for i in 0..n {
-                        let src = if rng.chance(1, 2) || seeds.is_empty() {
+                        let which = rng.below(3);
+                        let src = if which == 2 {
+                            // typed / pattern programs, half of them with one token-level mutation
+                            let s = structured(&mut rng);
+                            if rng.chance(1, 2) { mutate(&mut rng, &s) } else { s }
+                        } else if which == 0 || seeds.is_empty() {
                             let len = rng.below(25) + 1;
                             let mut s = String::new();
                             for _ in 0..len {
